@@ -11,6 +11,7 @@
  *                                          the preset references are "external" ones held by the harness
  *   r obj rbuf <n>                        library heap buffer with n logged elements (one external reference)
  *   r obj raw 1                           mpt_rawdata_create() (one external reference)
+ *   r traits input|meta                   pointer handles use mpt_input_reference_traits() / mpt_meta_reference_traits()
  *   r take <h> <o>                        empty handle: traits->init(&h, &slot naming o)
  *   r copy <h> <g>                        empty handle: traits->init(&h, &g)
  *   r drop <h>                            traits->fini(&h)
@@ -28,6 +29,7 @@
 #include "array.h"
 #include "convert.h"
 #include "values.h"
+#include "notify.h"
 
 enum { K_META, K_BUF, K_RBUF, K_RAW };
 #define NOBJ 3
@@ -131,6 +133,12 @@ static uintptr_t hb_addref(MPT_STRUCT(buffer) *b)
 static MPT_STRUCT(buffer) *hb_detach(MPT_STRUCT(buffer) *b, size_t len) { (void) len; return b; }
 static const MPT_INTERFACE_VPTR(buffer) hb_ctl = { hb_flags, hb_unref, hb_addref, hb_detach };
 
+/* traits used for pointer handles: the metatype reference traits or the stream input reference traits */
+static int use_input_traits;
+static const MPT_STRUCT(type_traits) *ref_traits(void)
+{
+	return use_input_traits ? mpt_input_reference_traits() : mpt_meta_reference_traits();
+}
 static int is_meta_kind(int k) { return k == K_META || k == K_RAW; }
 
 /* object index a pointer names, -1 none, 9 = unknown (new) object */
@@ -222,7 +230,7 @@ static void drop_handle(int h)
 		mpt_array_traits()->fini(&hnd[h].arr);
 		hnd[h].arr._buf = 0;
 	} else {
-		mpt_meta_reference_traits()->fini(&hnd[h].mt);
+		ref_traits()->fini(&hnd[h].mt);
 		hnd[h].mt = 0;
 	}
 	hnd[h].isarr = 0;
@@ -269,6 +277,15 @@ int main(void)
 			memset(objs, 0, sizeof(objs));
 			memset(hnd, 0, sizeof(hnd));
 			counter._val = 0;
+			use_input_traits = 0;
+			printf("R ok | C - | I ret=0\n");
+		}
+		else if (!strcmp(op, "traits") && drv_nw == 3 && (!strcmp(drv_w[2], "input") || !strcmp(drv_w[2], "meta"))) {
+			/* only while no pointer handle is filled */
+			int busy = 0;
+			for (int h = 0; h < NH; h++) if (!hnd[h].isarr && hnd[h].mt) busy = 1;
+			if (busy) { puts("bad-op"); continue; }
+			use_input_traits = drv_w[2][0] == 'i';
 			printf("R ok | C - | I ret=0\n");
 		}
 		else if (!strcmp(op, "cnt") && drv_nw == 3) {
@@ -325,7 +342,7 @@ int main(void)
 				MPT_INTERFACE(metatype) *src = o->kind == K_META ? &o->mt : o->lib;
 				if (!src) { puts("bad-op"); continue; }
 				hnd[h].isarr = 0; hnd[h].mt = 0;
-				ret = mpt_meta_reference_traits()->init(&hnd[h].mt, &src);
+				ret = ref_traits()->init(&hnd[h].mt, &src);
 				if (ret < 0) hnd[h].mt = 0;
 			} else {
 				MPT_STRUCT(array) src = MPT_ARRAY_INIT;
@@ -343,7 +360,7 @@ int main(void)
 			if (h < 0 || g < 0 || h == g || !handle_empty(h)) { puts("bad-op"); continue; }
 			if (!hnd[g].isarr) {
 				hnd[h].isarr = 0; hnd[h].mt = 0;
-				ret = mpt_meta_reference_traits()->init(&hnd[h].mt, &hnd[g].mt);
+				ret = ref_traits()->init(&hnd[h].mt, &hnd[g].mt);
 				if (ret < 0) hnd[h].mt = 0;
 			} else {
 				hnd[h].isarr = 1; hnd[h].arr._buf = 0;
